@@ -57,6 +57,85 @@ fn gen_untracked(rng: &mut jjv::Rng, trees: &[Tree]) -> Vec<Edit> {
     out
 }
 
+/// Observations on the real code alone (no model): checkouts of conflicted trees, and of
+/// plain trees under other EOL / exec-bit settings. After every checkout a snapshot must
+/// return the identical tree ids; a second workspace that checks the last tree out from
+/// scratch must have the identical disk (not claimed for exec-bit-change = "ignore", where
+/// the on-disk bit is inherited from the previous file by design).
+fn real_only(rng: &mut jjv::Rng) -> (Vec<bool>, String) {
+    use jj_lib::config::{ConfigLayer, ConfigSource};
+    use jj_lib::settings::UserSettings;
+    let eol = *rng.pick(&["none", "none", "input", "input-output"]);
+    let exec = *rng.pick(&["auto", "respect", "ignore"]);
+    let conflicted = rng.chance(2, 3);
+    let settings = || {
+        let mut config = testutils::base_user_config();
+        let mut layer = ConfigLayer::empty(ConfigSource::User);
+        layer.set_value("working-copy.eol-conversion", eol).unwrap();
+        layer.set_value("working-copy.exec-bit-change", exec).unwrap();
+        config.add_layer(layer);
+        UserSettings::from_config(config).unwrap()
+    };
+    // contents are whole lines so that file conflicts materialize as marker files
+    let lines = |t: &Tree| -> Tree {
+        t.iter()
+            .map(|(p, v)| {
+                let v = match v {
+                    TVal::File(c, x) => TVal::File(format!("{c}\nline\n"), *x),
+                    other => other.clone(),
+                };
+                (p.clone(), v)
+            })
+            .collect()
+    };
+    let n = 2 + rng.below(2) as usize;
+    let mut specs: Vec<(Tree, Tree, Tree)> = vec![];
+    for _ in 0..n {
+        let base = lines(&gen_tree(rng, 0));
+        let p1 = lines(&mutate_tree(rng, &base, 0));
+        let p2 = if conflicted { lines(&mutate_tree(rng, &base, 0)) } else { p1.clone() };
+        specs.push((base, p1, p2));
+    }
+    let build = |ws: &Ws, spec: &(Tree, Tree, Tree)| {
+        let mut b = testutils::TestThreeWayMergeTreeBuilder::new(ws.store());
+        let fill = |tb: &mut testutils::TestTreeBuilder, t: &Tree| {
+            for (p, v) in t {
+                let rp = to_repo_path(p);
+                match v {
+                    TVal::File(c, x) => {
+                        tb.file(&rp, c.as_bytes()).executable(*x);
+                    }
+                    TVal::Sym(target) => tb.symlink(&rp, target),
+                }
+            }
+        };
+        fill(b.base(), &spec.0);
+        fill(b.parent1(), &spec.1);
+        fill(b.parent2(), &spec.2);
+        // as in a real commit: trivially mergeable paths resolved, conflict simplified
+        pollster::FutureExt::block_on(b.write_merged_tree().resolve()).unwrap()
+    };
+    let mut obs = vec![];
+    let mut ws = Ws::with_settings(&settings());
+    let mut last_ok = true;
+    for spec in &specs {
+        let tm = build(&ws, spec);
+        let res = outcome(ws.check_out(&tm));
+        last_ok = matches!(res, Outcome::Ok(ref s) if s.skipped_files == 0);
+        obs.push(last_ok);
+        let snap = ws.snapshot();
+        obs.push(snap.is_some_and(|t| t.tree_ids_and_labels() == tm.tree_ids_and_labels()));
+    }
+    if exec != "ignore" {
+        let mut ws2 = Ws::with_settings(&settings());
+        let tm2 = build(&ws2, specs.last().unwrap());
+        let res2 = outcome(ws2.check_out(&tm2));
+        obs.push(matches!(res2, Outcome::Ok(_)) == last_ok);
+        obs.push(list_disk(&ws2.root) == list_disk(&ws.root));
+    }
+    (obs, (if conflicted { " +conflicts" } else { " +settings" }).to_string())
+}
+
 fn run_case(_i: usize, mut rng: jjv::Rng) -> CaseOut {
     let n_steps = 1 + rng.below(3) as usize + if rng.chance(1, 4) { 1 } else { 0 };
     let mut trees: Vec<Tree> = vec![];
@@ -96,7 +175,7 @@ fn run_case(_i: usize, mut rng: jjv::Rng) -> CaseOut {
         let disk = list_disk(&ws.root);
         let states = ws.file_states();
         steps.push(format!(
-            "(mk_step {} {} {} {})",
+            "(C24Chk.mk_step {} {} {} {})",
             coq_tree(t),
             coq_outcome(&res),
             coq_disk(&disk),
@@ -115,22 +194,25 @@ fn run_case(_i: usize, mut rng: jjv::Rng) -> CaseOut {
     panicked |= res2 == Outcome::Panic;
     let scratch = list_disk(&ws2.root);
 
+    let (obs, obs_shape) = if rng.chance(1, 2) { real_only(&mut rng) } else { (vec![], String::new()) };
     let term = coq::app(
-        "mk_case",
+        "C24Chk.mk_case",
         &[
             coq_disk(&disk0),
             coq_paths(&sparse),
             coq::list(steps.iter(), |s| s.clone()),
             coq::opt(snap_tree.as_ref(), coq_tree),
             coq_disk(&scratch),
+            coq::list(obs.iter(), |b| coq::b(*b)),
         ],
     );
     let shape = format!(
-        "steps={}{}{}{}",
+        "steps={}{}{}{}{}",
         n_steps,
         if is_sparse { " sparse" } else { "" },
         if has_untracked { " untracked" } else { "" },
         if all_ok { "" } else { " failed" },
+        obs_shape,
     );
     let changed = trees.windows(2).any(|w| w[0] != w[1]);
     CaseOut { term, nontrivial: n_steps >= 2 && changed, shape, panicked }
